@@ -449,6 +449,10 @@ class Facts:
         for tu in [lam.tu] + self.tus:
             for f in tu.functions:
                 if f.loc == loc and f.d.get('lambda') and f.name == lam.d.get('fn'): return f
+        # generic lambda: the instantiated call operator carries template arguments in its name
+        for tu in [lam.tu] + self.tus:
+            for f in tu.functions:
+                if f.loc == loc and f.d.get('lambda'): return f
         return None
 
     def resolve(self, call):
